@@ -114,9 +114,11 @@ TABLE = {
             "Known finding C17.no_deps_on_mod.",
             "Lean 4 theorems on the option parser + metamorphic testing of the real macro", "5/C17"),
     "C18": ("Lean theorem T_C18: in fn / mod / impl modes generated traits carry only entrait-owned attributes plus re-applied "
-            "async_trait/automock, impls only async_trait, generated methods and parameters none; in trait mode delegating methods "
-            "mirror the source method's attributes.",
-            "Known finding C18.cfgfn.",
+            "async_trait/automock, impls only async_trait, parameters none; the method generated for a function of a module / impl "
+            "block carries exactly that function's cfg attributes (a disabled function takes its trait method and delegating method "
+            "with it), a single function's method none; in trait mode delegating methods mirror the source method's attributes. "
+            "That rustc then drops the method is exercised by the probe p_c18_cfg_fns.",
+            "cfg evaluation itself is rustc's (sampled by the probe).",
             "Lean 4 theorem + differential correspondence", "5/C18"),
     "C19": ("Lean theorem T_C19: the bounds on the macro's type parameter are absolute paths or 'static; the self type is EntraitT, ::entrait::Impl<EntraitT> or the user's; what the macro requires of T in trait mode is an absolute path or one of the user's own trait names; every delegating body is one of the recognised call shapes (which name only the callee, the method's parameters, self/Self/__impl/EntraitT and ::core paths); rewritten return types are the absolute impl ::core::future::Future form (from T_C12). Name resolution in a hostile scope (user items called Impl, Send, Sync, Future, AsRef, core, std, entrait, ...) is exercised with rustc by the probe p_c19_capture.",
             "partial: that an absolute path cannot be captured is rustc's name resolution (sampled by the probe). Reserved names: EntraitT, __impl.",
